@@ -199,7 +199,7 @@ func genLifePlan(seed int64, tier string) *LifePlan {
 	if r.Intn(3) != 0 {
 		protos = pickSubset(r, []string{pIPFIX, pNF9})
 	}
-	nInc := 2 + r.Intn(2)
+	nInc := 2 + r.Intn(3)
 	o := PipeGenOpts{Protos: protos, Benign: true, Stalls: true, VarLen: true, MaxDels: 30}
 	var prev *PipePlan
 	for k := 0; k < nInc; k++ {
@@ -232,6 +232,57 @@ func genLifePlan(seed int64, tier string) *LifePlan {
 			}
 			p.Dels = dels
 			p.NPhases = 1
+			// in a later incarnation exporters may re-announce a template with a
+			// shorter definition (the new cache file is then shorter than the one
+			// on disk) and send data for it; the next incarnation must decode
+			// that data with the new definition
+			if r.Intn(2) == 0 {
+				im := modelIM(&p.Cfg)
+				type key struct {
+					ex int
+					id uint16
+				}
+				seen := map[key]bool{}
+				var redo []key
+				for _, d := range prev.Dels {
+					if d.Abs == nil || d.Phase != 0 || d.DupOf > 0 {
+						continue
+					}
+					for _, st := range d.Abs.Sets {
+						for _, t := range st.Tpls {
+							k := key{d.Exporter, t.ID}
+							if !seen[k] && r.Intn(2) == 0 {
+								seen[k] = true
+								redo = append(redo, k)
+							}
+						}
+					}
+				}
+				for _, k := range redo {
+					ex := p.Exporters[k.ex]
+					mp := "ipfix"
+					if ex.Proto == pNF9 {
+						mp = "nf9"
+					}
+					g := model.NewGen(r, im, model.GenOpts{Proto: mp, MaxFields: 2, MaxSize: 1200})
+					nt := g.Template(k.id)
+					nt.Options, nt.Scope = false, nil
+					if len(nt.Fields) > 1 {
+						nt.Fields = nt.Fields[:1]
+					}
+					if g.MinRecLen(&nt) == 0 {
+						nt.Fields = []model.FieldSpec{{ID: 1, Len: 8}}
+					}
+					tm := &model.Msg{Proto: mp, Time: 7, Seq: uint32(6000 + len(p.Dels)), Domain: ex.Domain, Sets: g.TemplateSets([]model.Template{nt})}
+					p.Dels = append(p.Dels, Delivery{ID: len(p.Dels), Phase: 1, AtUs: r.Intn(20000), Proto: ex.Proto, Exporter: k.ex, Abs: tm})
+					ds, _ := g.DataSet(&nt, 1+r.Intn(3), 400)
+					dm := &model.Msg{Proto: mp, Time: 8, Seq: uint32(6000 + len(p.Dels)), Domain: ex.Domain, Sets: []model.Set{ds}}
+					p.Dels = append(p.Dels, Delivery{ID: len(p.Dels), Phase: 2, AtUs: r.Intn(20000), Proto: ex.Proto, Exporter: k.ex, Abs: dm})
+				}
+				if len(redo) > 0 {
+					p.NPhases = 3
+				}
+			}
 		}
 		// stalls stay well below the one-second guard of the shutdown protocol
 		if p.Cfg.StallMaxMs > 50 {
@@ -269,6 +320,22 @@ func genLifePlan(seed int64, tier string) *LifePlan {
 			// the shutdown sleep ends (signal + 1 s)
 			if p.Life.SignalPhase >= 0 && p.Life.SignalPhase < p.NPhases {
 				n := len(p.Dels)
+				// template announcements (the same definitions again) shortly before
+				// the cache is dumped: workers insert while shutdown dumps
+				for i := 0; i < n && len(p.Dels) < n+4; i++ {
+					d := p.Dels[i]
+					if d.Phase != 0 || d.Abs == nil || d.DupOf > 0 || r.Intn(2) == 0 {
+						continue
+					}
+					d.Phase = p.Life.SignalPhase
+					d.AtUs = p.Life.SignalAtUs + 1000000 - []int{0, 100, 1000, 5000, 20000}[r.Intn(5)]
+					d.ID = len(p.Dels)
+					m := *d.Abs
+					m.Seq = uint32(8000 + len(p.Dels))
+					d.Abs = &m
+					p.Dels = append(p.Dels, d)
+				}
+				n = len(p.Dels)
 				for i := 0; i < n && len(p.Dels) < n+8; i++ {
 					d := p.Dels[i]
 					if d.Phase != p.Life.SignalPhase || d.DupOf > 0 {
